@@ -1,0 +1,48 @@
+//go:build verif
+
+package headers
+
+// Contracts for package headers (comment-only; read by /verif/govc).
+
+//@ func isOWS
+//@   props C14 C17 C18
+//@   inline
+//@   byexec
+//@   ensures result == (b == 9 || b == 32)
+
+//@ func cutAtComma
+//@   props C14 C17 C18
+//@   pure
+//@   allocs <= 0
+//@   ensures found ==> len(before) < len(str) && len(before) < n && before === str[:len(before)] && after === str[len(before)+1:] && str[len(before)] == ','
+//@   ensures found ==> (forall k :: 0 <= k && k < len(before) ==> str[k] != ',')
+//@   ensures !found ==> before === str && len(after) == 0
+//@   ensures !found ==> (forall k :: 0 <= k && k < len(str) && k < n ==> str[k] != ',')
+
+//@ func trimLeftOWS
+//@   props C14 C17 C18
+//@   pure
+//@   allocs <= 0
+//@   requires 0 <= n && n < 1000000
+//@   ensures result1 ==> result0 === s[len(s)-len(result0):] && len(s)-len(result0) <= n+1 && len(result0) <= len(s)
+//@   ensures result1 ==> (forall k :: 0 <= k && k < len(s)-len(result0) ==> isOWS(s[k]))
+//@   ensures result1 ==> (len(result0) == 0 || !isOWS(result0[0]) )
+//@   ensures result1 ==> (len(s)-len(result0) <= n || len(result0) == 0)
+//@   ensures !result1 ==> result0 === s && len(s) > n+1 && (forall k :: 0 <= k && k <= n ==> isOWS(s[k]))
+//@   loop 0 invariant 0 <= i && i <= n+1 && i <= len(sCopy) && s === sCopy[i:]
+//@   loop 0 invariant forall k :: 0 <= k && k < i ==> isOWS(sCopy[k])
+//@   loop 0 decreases len(s)
+
+//@ func trimRightOWS
+//@   props C14 C17 C18
+//@   pure
+//@   allocs <= 0
+//@   requires 0 <= n && n < 1000000
+//@   ensures result1 ==> result0 === s[:len(result0)] && len(s)-len(result0) <= n+1 && len(result0) <= len(s)
+//@   ensures result1 ==> (forall k :: len(result0) <= k && k < len(s) ==> isOWS(s[k]))
+//@   ensures result1 ==> (len(result0) == 0 || !isOWS(result0[len(result0)-1]))
+//@   ensures result1 ==> (len(s)-len(result0) <= n || len(result0) == 0)
+//@   ensures !result1 ==> result0 === s && len(s) > n+1 && (forall k :: len(s)-n-1 <= k && k < len(s) ==> isOWS(s[k]))
+//@   loop 0 invariant 0 <= i && i <= n+1 && i <= len(sCopy) && s === sCopy[:len(sCopy)-i]
+//@   loop 0 invariant forall k :: len(sCopy)-i <= k && k < len(sCopy) ==> isOWS(sCopy[k])
+//@   loop 0 decreases len(s)
